@@ -184,7 +184,7 @@ theorem take_beq_self (s : Str) (n : Nat) : (s.take n == s) = decide (s.length â
     simp [h, this]
 
 theorem reMatch_eq (r : RE) (s : Str) :
-    reMatch r s = (pyMatch r s).map fun st => { subject := s, start := 0, stop := s.length - st.1.length } := by
+    reMatch r s = (pyMatch r s).map fun st => { subject := s, start := 0, stop := s.length - st.1.length, caps := st.2 } := by
   unfold reMatch reMatchAt pyMatch pyMatchAt
   simp
 
